@@ -954,6 +954,76 @@ example : ¬ ∃ hs, hsOfVar 2 (List.replicate 11 (1 : Rat)) true = some hs := b
   have := gate_var_length_of_ok 2 _ true hs (by decide) h
   revert this; decide
 
+/-- C03.1 measurement process, the constraint read off the OBJECT itself: a stacked vector of `m ≥ 1` HS matrices is reproduced
+from its variables exactly when the first row of its last HS equals `e₀ − Σ (first rows of the other HS)` computed from that same
+stacked vector (the built-in "sum is trace preserving" constraint). -/
+theorem mp_obj_roundtrip_on_object [Add K] [Sub K] [Zero K] [One K] (d m : Nat) (st : List K) (hd : 0 < d) (hm : 1 ≤ m)
+    (h : st.length = m * hsSize d) :
+    ∃ var, mpVarOfStacked d st true = some var ∧ (var.length : Int) = num_variables_qmpt d m true ∧
+      (mpStackedOfVar d var true = some st ↔
+        (st.drop (hsSize d * (m - 1))).take (d ^ 2) = mpLast d (m - 1) st) := by
+  obtain ⟨var, hv, hlen, hiff⟩ := mp_obj_roundtrip d m st hd hm h
+  refine ⟨var, hv, hlen, ?_⟩
+  rw [hiff]
+  -- `var` and `st` share their first `H·(m−1)` entries, which is all the implied row reads
+  have h1 : 1 ≤ d ^ 2 := Nat.pow_pos hd
+  have hH : 0 < hsSize d := by unfold hsSize; exact Nat.mul_pos h1 h1
+  have hd0 : d ≠ 0 := by omega
+  obtain ⟨k, rfl⟩ : ∃ k, m = k + 1 := ⟨m - 1, by omega⟩
+  have hdiv : st.length / hsSize d = k + 1 := by rw [h]; exact Nat.mul_div_cancel _ hH
+  simp only [mpVarOfStacked, ↓reduceIte, hd0, hdiv, Nat.add_sub_cancel, Nat.succ_ne_zero, Option.some.injEq] at hv
+  simp only [Nat.add_sub_cancel]
+  have hpl : hsSize d * k ≤ st.length := by rw [h, Nat.succ_mul, Nat.mul_comm]; omega
+  have htake : var.take (hsSize d * k) = st.take (hsSize d * k) := by
+    rw [← hv, List.take_left' (by rw [List.length_take]; omega)]
+  have e : mpLast d k var = mpLast d k st := by
+    unfold mpLast
+    rw [← firstRowSum_take d k var hd, ← firstRowSum_take d k st hd, htake]
+  rw [e]
+
+example := mp_obj_roundtrip_on_object 1 2 ([3, -2] : List Rat) (by decide) (by decide) (by decide)
+example : (([3, -2] : List Rat).drop (hsSize 1 * (2 - 1))).take (1 ^ 2) = mpLast 1 (2 - 1) [3, -2] := by decide +kernel
+
+/-- C03.3 converse for measurement processes: `convert_var_to_hss` accepts exactly the variable vectors whose length is
+`k·d⁴` (without the constraint) resp. `k·d⁴ − d²` for the outcome count `k = len // d⁴ + 1` read off the length (with it). -/
+theorem mp_var_length_of_ok [Add K] [Sub K] [Zero K] [One K] (d : Nat) (var : List K) (f : Bool) (hss : List (List K))
+    (h : hssOfVar d var f = some hss) :
+    d ≠ 0 ∧ hss.length = var.length / hsSize d + (if f then 1 else 0) ∧
+      var.length + (if f then d ^ 2 else 0) = hss.length * hsSize d := by
+  unfold hssOfVar at h
+  split at h
+  · cases h
+  · rename_i hd0
+    refine ⟨hd0, ?_⟩
+    cases f
+    · simp only [Bool.false_eq_true, ↓reduceIte, Nat.add_zero] at h ⊢
+      obtain ⟨h1, h2⟩ := reshape2_some _ _ _ _ h
+      rw [h2, rows_length]; exact ⟨rfl, h1⟩
+    · simp only [↓reduceIte, Option.bind_eq_bind] at h ⊢
+      cases hs : mpStackedOfVar d var true with
+      | none => rw [hs] at h; cases h
+      | some st =>
+        rw [hs] at h
+        simp only [Option.bind_some] at h
+        obtain ⟨h1, h2⟩ := reshape2_some _ _ _ _ h
+        rw [h2, rows_length]
+        refine ⟨rfl, ?_⟩
+        rw [← h1]
+        simp only [mpStackedOfVar, hd0, ↓reduceIte, Option.some.injEq] at hs
+        have hH : 0 < hsSize d := by
+          unfold hsSize; exact Nat.mul_pos (Nat.pow_pos (Nat.pos_of_ne_zero hd0)) (Nat.pow_pos (Nat.pos_of_ne_zero hd0))
+        have hp : hsSize d * (var.length / hsSize d) ≤ var.length := Nat.mul_div_le _ _
+        rw [← hs]
+        simp only [Nat.add_sub_cancel, List.length_append, List.length_take, List.length_drop, Nat.min_eq_left hp]
+        have hl : (mpLast d (var.length / hsSize d) var).length = d ^ 2 := by
+          apply mpLast_length d _ var (Nat.pos_of_ne_zero hd0)
+          intro o ho
+          have : hsSize d * (o + 1) ≤ hsSize d * (var.length / hsSize d) := Nat.mul_le_mul_left _ (by omega)
+          have h2' : d ^ 2 ≤ hsSize d := by
+            unfold hsSize; exact Nat.le_mul_of_pos_left _ (Nat.pow_pos (Nat.pos_of_ne_zero hd0))
+          rw [Nat.mul_succ] at this; omega
+        rw [hl]; omega
+
 /-! ## clause "across a whole set of operations" -/
 
 /-- C03.5 SetQOperations: local (mode, operation k, local index j) ↦ total index lands in range and
